@@ -19,9 +19,20 @@ CHECKS = {
    text='Every accessor and initialiser runs on an object of exactly the published size with all CBMC pointer checks on; published length, sizeof and offsetof(payload) are compared with the oracle header size; payload accessor address.'),
  'C04': dict(cat='model_checking', ref='3/C04', tech=BMC,
    text='All 20 current and 4 legacy initialisers from an arbitrary prior buffer state: canonical image from the oracle, idempotence, nothing outside the header touched (exact extent); LE+BE.'),
+
+ 'C05': dict(cat='model_checking', ref='3/C05', tech=BMC + '; bounded histories + inductive step lemma',
+   text='Per format: a k-step history (k=2 quick, 3 thorough, 4 for the stream formats) over two buffers where buffer, operation (init / set), field, entry point (generic, dedicated, legacy) and value are symbolic at every step, compared byte-for-byte and getter-by-getter with the reference image; plus commutation / idempotence / last-write-wins with symbolic field ids. Histories of arbitrary length follow by induction from the step lemma proved by C02/C04 from an ARBITRARY pre-state and the frame condition of C16; the bounded run guards that induction.'),
+ 'C11': dict(cat='model_checking', ref='3/C11', tech=BMC,
+   text='NULL PDU through every reader/writer/initialiser; every 32-bit int outside the enumeration through the by-identifier reader and writer on a valid exact-extent PDU; legacy wrappers over {NULL,valid} PDU x {NULL,valid} result x identifier; return values, no write to PDU/result/bystander memory, no fault (pointer checks).'),
+ 'C12': dict(cat='model_checking', ref='3/C12', tech=BMC + ' (differential: legacy vs current on two copies of one symbolic buffer)',
+   text='For the 5 legacy formats every field: legacy get == current get == oracle bits, legacy set bytes == current set bytes, legacy init == current init, for all buffers and values, LE+BE; every legacy alias macro pinned to the oracle field; struct overlay sizes and offsets.'),
+ 'C13': dict(cat='model_checking', ref='3/C13', tech=BMC,
+   text='All 15 helpers for all 2^16/2^32/2^64 values: memory image of CpuToBe/CpuToLe, inverse laws, to-host from a wire image, swap involution and byte reversal; both #if branches (host little / host big).'),
+ 'C17': dict(cat='model_checking', ref='3/C17', tech=BMC + ' (relational: two views on the same bytes)',
+   text='Every unordered pair of views of every sharing group the property names: read/read, write/write (generic and dedicated), write-through-one/read-through-the-other, pinned to the oracle position; all buffers and values; LE+BE. Each view is compiled in its own TU so that the verdict does not depend on header combination (C20).'),
 }
 NA = {}
-for i in range(5, 21):
+for i in (6,7,8,9,10,14,15,16,18,19,20):
     NA['C%02d' % i] = 'check not built yet in this round (see DESIGN.md section 3 for the plan)'
 
 def main():
